@@ -59,7 +59,7 @@ def agree(x, y):
     return abs(x - y) <= 2e-9 * max(abs(x), abs(y)) + 2e-18
 
 
-LABELS = ["int", "str", "tuple", "frozendict", "mixed"]
+LABELS = ["int", "str", "tuple", "frozendict", "mixed", "falsy"]
 DISTS = ["dict", "dict_zeros", "det", "uniform"]
 BREPS = ["returned", "zeros", "dict", "native"]
 # how a Belief tuple (states, probs) is handed to the functions that accept one: as the library builds it
@@ -102,7 +102,8 @@ def make_cases(rng, n, tier):
         rep = dict(labels=rng.choice(LABELS), alabels=rng.choice(LABELS), olabels=rng.choice(LABELS),
                    explicit_list=rng.random() < 0.5, dist=rng.choice(DISTS), odist=rng.choice(DISTS),
                    outside=None, brep=rng.choice(BREPS), keyperm=False,
-                   agrep=rng.choice(TUPLE_REPS), keyrep=rng.choice(TUPLE_REPS), statedep_actions=False)
+                   agrep=rng.choice(TUPLE_REPS), keyrep=rng.choice(TUPLE_REPS), statedep_actions=False,
+                   declare_lists=rng.random() < 0.3)
         # state-dependent action sets: terminal (and a few other) states offer a subset of the actions
         if K >= 2 and rng.random() < 0.4:
             rep["statedep_actions"] = pb.restrict_actions(rng, m)
@@ -138,7 +139,8 @@ def make_cases(rng, n, tier):
         rep = dict(labels=rng.choice(LABELS), alabels=rng.choice(LABELS), olabels=rng.choice(LABELS),
                    explicit_list=True, dist=rng.choice(DISTS), odist=rng.choice(DISTS),
                    outside=None, brep=rng.choice(BREPS), keyperm=False,
-                   agrep=rng.choice(TUPLE_REPS), keyrep=rng.choice(TUPLE_REPS), statedep_actions=False)
+                   agrep=rng.choice(TUPLE_REPS), keyrep=rng.choice(TUPLE_REPS), statedep_actions=False,
+                   declare_lists=rng.random() < 0.3)
         m["alpha"] = [rng.randint(-2, 2) for _ in range(m["N"])]
         m["beliefs"] = [list(m["p0"])] + beliefs
         m["D"], m["DB"], m["LL"] = 1, 1, 0
@@ -540,6 +542,73 @@ class Judge:
                         "rep": self.rep, "machine": "filter", "initial_belief": root["bv"], "history": rec["hist"],
                         "expected_belief_weights": rec["bv"], "real_dict_belief": {str(k): v for k, v in rd.items()}}, limit=3)
 
+    # ------------------------------------------------------------------ the filter machine, aliasing call history
+    def run_inplace(self, b0, max_paths=8):
+        """Replays behaviours of the filter machine the way a belief filter that keeps ONE belief object does:
+        the same DictDistribution (and the same numpy array) is handed to every call and overwritten in place
+        with the returned posterior (b.clear(); b.update(post) / arr[:] = post).  The posterior must be the Bayes
+        posterior of the belief's CURRENT contents; a result returned earlier must not change afterwards."""
+        from msdm.core.distributions import DictDistribution
+        m, B, p, ctx = self.m, self.B, self.p, self.ctx
+        cands = [k[2] for k in self.recs if k[0] == "filter" and k[1] == b0 and len(k[2]) >= 2
+                 and self.recs[k]["phase"] == "live"]
+        if not cands:
+            return
+        cands.sort()
+        rep_a = [h for h in cands if any(h[i][0] == h[i + 1][0] for i in range(len(h) - 1))]   # same action twice in a row
+        self.trng.shuffle(rep_a)
+        self.trng.shuffle(cands)
+        paths = (rep_a[:max_paths - 2] + cands)[:max_paths]
+        root = self.recs[("filter", b0, ())]
+        eb0 = exact_belief(root["bv"])
+        pos = {n: i for i, n in enumerate(self.spos)}
+        for h in paths:
+            zeros = self.rep["brep"] == "zeros"
+            shared = DictDistribution({B.slabel[n]: float(eb0[n]) for n in sorted(B.listed) if eb0[n] > 0 or zeros})
+            arr = self.vec(eb0).copy()
+            prev = None
+            good = True
+            for i, (a1, o1) in enumerate(h):
+                a, o = a1 - 1, o1 - 1
+                parent = self.recs[("filter", b0, h[:i])]
+                child = self.recs[("filter", b0, h[:i + 1])]
+                exp = exact_belief(child["bv"])
+                shape = shape_of(parent["bv"], m) + self.sdtag + "+belief-object-updated-in-place"
+                la = parent["la"]
+                pod = self.call("predictive_observation_dist", shape, parent, p.predictive_observation_dist, shared, B.alabel[a])
+                if pod is not None:
+                    for oo in range(m["NO"]):
+                        if not rel_close(pod.prob(B.olabel[oo]), float(F(la["obs"][a][oo], la["den"]))):
+                            self.fail("predictive_observation_dist", "marginal", shape,
+                                      f"Pr(obs {oo} | b, action {a}) = {pod.prob(B.olabel[oo])!r}, exact {F(la['obs'][a][oo], la['den'])}", parent)
+                            good = False
+                            break
+                post = self.call("state_estimator", shape, child, p.state_estimator, shared, B.alabel[a], B.olabel[o])
+                if post is None or not self.cmp_belief("state_estimator", child, shape,
+                                                       lambda n: float(post.prob(B.slabel[n])), exp):
+                    good = False
+                    break
+                if prev is not None and dict(prev[0]) != prev[1]:
+                    self.fail("state_estimator", "returned-posterior-changed-by-a-later-call", shape,
+                              f"posterior returned one call earlier was {prev[1]}, now reads {dict(prev[0])}", child)
+                    good = False
+                prev = (post, dict(post))
+                shared.clear()
+                shared.update(post)
+                if self.vec_ok and o in self.opos:
+                    nv = self.call("state_estimator_vec", shape, child, p.state_estimator_vec, arr, self.apos[a], self.opos[o])
+                    if nv is None or np.asarray(nv).shape != arr.shape or not self.cmp_belief(
+                            "state_estimator_vec", child, shape, lambda n: float(nv[pos[n]]) if n in pos else None, exp):
+                        good = False
+                        arr = self.vec(exp).copy()
+                    else:
+                        arr[:] = nv
+                else:
+                    arr = self.vec(exp).copy()
+            if good:
+                ctx.validated += 1
+                ctx.count("behaviours_replayed_with_one_belief_object_updated_in_place")
+
     # ------------------------------------------------------------------ the belief-MDP machine
     def run_bmdp(self, b0):
         from msdm.core.pomdp.tabularpomdp import Belief
@@ -688,6 +757,7 @@ class Judge:
             return
         for b0 in range(1, len(self.m["beliefs"]) + 1):
             self.run_filter(b0)
+            self.run_inplace(b0)
             self.run_bmdp(b0)
         if self.ok:
             self.ctx.count("cases_fully_conformant")
@@ -787,6 +857,9 @@ def run(ctx):
         "the Bayes filter and the belief reward use the declared rows of absorbing states (literal reading); "
         "75% of the instances have self-looping zero-reward absorbing states where both readings coincide",
         "beliefs are supported on the state list",
+        "30% of the cases declare observation_list / action_list as class attributes in a non-sorted order (as LoadUnload does); "
+        "label kind 'falsy' uses None, '', (), 0; up to 8 behaviours per (case, initial belief) are additionally replayed with one "
+        "belief object / array overwritten in place between the calls",
     ]
     cases = make_cases(rng, n, ctx.tier)
     chunk = 120 if ctx.tier == "quick" else 100
